@@ -27,6 +27,8 @@ type pathElem struct {
 
 // Addr is an interior pointer tracked by the executor (never stored in the SMT heap).
 type Addr struct {
+	sliceOff *Term // slice element: idx = [ptr, off+i]; sliceOff/sliceIdx keep the parts
+	sliceIdx *Term
 	comp     string
 	compSort Sort
 	idx      []*Term
@@ -93,6 +95,7 @@ type Exec struct {
 	floatOps  [][2]*Term
 	mapTypes  map[string]*types.Map
 	funcVals  map[string]Value
+	curReach  *Term
 	funcAssumed map[string]bool
 	scanState *State
 	funcRefs  map[Value]*Term
@@ -315,7 +318,14 @@ func (ex *Exec) loadAddr(st *State, a *Addr) *Term {
 	case 1:
 		v = ex.vc.SelectThrough(base, a.idx[0])
 	case 2:
-		v = ex.vc.SelectThrough(ex.vc.SelectThrough(base, a.idx[0]), a.idx[1])
+		if a.sliceIdx != nil {
+			v = ex.vc.SliceAt(ex.vc.SelectThrough(base, a.idx[0]), a.sliceOff, a.sliceIdx)
+			if v.Op == "select" {
+				v = ex.vc.SelectThrough(v.Args[0], v.Args[1])
+			}
+		} else {
+			v = ex.vc.SelectThrough(ex.vc.SelectThrough(base, a.idx[0]), a.idx[1])
+		}
 	}
 	for _, pe := range a.path {
 		f := pe.structT.Field(pe.field)
@@ -343,8 +353,21 @@ func (ex *Exec) storeAddr(st *State, a *Addr, val *Term) {
 	case 1:
 		ex.setComp(st, a.comp, Store(base, a.idx[0], nv))
 	case 2:
-		inner := Store(Select(base, a.idx[0]), a.idx[1], nv)
+		oldArr := Select(base, a.idx[0])
+		inner := Store(oldArr, a.idx[1], nv)
 		ex.setComp(st, a.comp, Store(base, a.idx[0], inner))
+		if a.sliceIdx != nil {
+			if v, ok := a.sliceOff.IntVal(); !(ok && v.Sign() == 0) && len(a.path) == 0 {
+				// consequences of the store in terms of the slice accessor (see VC.SliceAt)
+				vc := ex.vc
+				newArr := vc.Def("slarr", inner)
+				vc.Assume(ex.curReach, Eq(vc.SliceAt(newArr, a.sliceOff, a.sliceIdx), nv))
+				jq := Sym("j!q", a.sliceIdx.Sort)
+				f := Forall([]*Term{jq}, Implies(Not(Eq(jq, a.sliceIdx)), Eq(vc.SliceAt(newArr, a.sliceOff, jq), vc.SliceAt(oldArr, a.sliceOff, jq))))
+				f.Pats = [][]*Term{{vc.SliceAt(newArr, a.sliceOff, jq)}}
+				vc.Assume(ex.curReach, f)
+			}
+		}
 	}
 }
 
@@ -640,6 +663,7 @@ func (ex *Exec) runBody(fr *frame, st0 *State, reach0 *Term) []*exit {
 		mods   *modSet
 	}
 	loopInfo := map[int]*latchCheck{}
+	rangeUB := map[*ssa.Phi]ssa.Value{}
 
 	for _, b := range order {
 		var st *State
@@ -776,6 +800,9 @@ func (ex *Exec) runBody(fr *frame, st0 *State, reach0 *Term) []*exit {
 			// built-in invariant of range-over-slice loops: the hidden index is >= -1
 			for _, phi := range phis {
 				if phi.Comment == "rangeindex" {
+					if ub := rangeLenOf(b, phi); ub != nil {
+						rangeUB[phi] = ub
+					}
 					if ev, ok := entryEnv[phi].(*Term); ok {
 						ex.vc.Oblige(&Obligation{Name: fmt.Sprintf("%s/inv-auto-entry:%s", lname, phi.Name()), Kind: "inv-entry", Tags: ex.contractTags(), Guard: reach, Goal: ex.vc.Cmp(">=", ev, ex.vc.IntConst(-1), phi.Type()), Func: relName(fn), Note: "range index >= -1"})
 					}
@@ -791,6 +818,12 @@ func (ex *Exec) runBody(fr *frame, st0 *State, reach0 *Term) []*exit {
 				if phi.Comment == "rangeindex" {
 					if ev, ok := fr.env[phi].(*Term); ok {
 						ex.vc.Assume(reach, ex.vc.Cmp(">=", ev, ex.vc.IntConst(-1), phi.Type()))
+						// the index only advances while index+1 < len: index < len whenever len >= 0 (len is loop invariant in SSA)
+						if ub, ok := rangeUB[phi]; ok {
+							if lt, ok := fr.env[ub].(*Term); ok {
+								ex.vc.Assume(reach, Or(Eq(ev, ex.vc.IntConst(-1)), ex.vc.Cmp("<", ev, lt, phi.Type())))
+							}
+						}
 					}
 				}
 			}
@@ -1218,4 +1251,45 @@ func (ex *Exec) checkAsserts(fr *frame, fc *FuncContract, st *State, reach *Term
 		fr.assertHit = true
 		ex.assertsHit[fmt.Sprintf("%s#%d", funcKey(fr.fn), ai)] = true
 	}
+}
+
+// rangeLenOf: for the header of a lowered `for i := range slice` loop (phi; next = phi+1; if next < len),
+// the SSA value of len, provided it is defined outside the loop (so it is loop invariant). The fact
+// "phi == -1 || phi < len" then holds at the header: phi is only ever assigned a value of next that
+// passed the test next < len.
+func rangeLenOf(header *ssa.BasicBlock, phi *ssa.Phi) ssa.Value {
+	var next ssa.Value
+	for _, in := range header.Instrs {
+		if bo, ok := in.(*ssa.BinOp); ok && bo.Op == token.ADD && bo.X == phi {
+			if c, ok := bo.Y.(*ssa.Const); ok && c.Value != nil && c.Value.ExactString() == "1" {
+				next = bo
+			}
+		}
+	}
+	if next == nil {
+		return nil
+	}
+	// every back-edge operand of the phi must be `next`
+	for i, e := range phi.Edges {
+		if header.Preds[i].Index >= header.Index || header.Dominates(header.Preds[i]) {
+			if e != next {
+				if c, ok := e.(*ssa.Const); ok && c.Value != nil && c.Value.ExactString() == "-1" {
+					continue
+				}
+				return nil
+			}
+		}
+	}
+	for _, in := range header.Instrs {
+		if bo, ok := in.(*ssa.BinOp); ok && bo.Op == token.LSS && bo.X == next {
+			if iv, ok := bo.Y.(ssa.Instruction); ok && iv.Block() != nil && !header.Dominates(iv.Block()) {
+				return bo.Y
+			} else if !ok {
+				return bo.Y
+			} else if iv.Block() != header && iv.Block().Dominates(header) {
+				return bo.Y
+			}
+		}
+	}
+	return nil
 }
